@@ -13,8 +13,11 @@ type FaultDB struct {
 	Inner db.ClientInterface
 	// Hook is called at each boundary; a non-nil error fails the step (ignored for
 	// after-commit, where nothing can be failed any more).
-	Hook  func(point string) error
-	Calls map[string]int
+	Hook func(point string) error
+	// EnterCtx, if set, is called first at the entry of every Write with the caller's
+	// context (it may park the caller: the simulator's write gate).
+	EnterCtx func(ctx context.Context)
+	Calls    map[string]int
 	// Statements: also report (and allow failing) selected statements inside a Write
 	// as boundaries "db.stmt.<Method>".
 	Statements bool
@@ -55,6 +58,9 @@ func (c *faultClient) Read(ctx context.Context, op func(context.Context, db.Read
 }
 
 func (c *faultClient) Write(ctx context.Context, op func(context.Context, db.Transaction) error) error {
+	if c.b.EnterCtx != nil {
+		c.b.EnterCtx(ctx)
+	}
 	if err := c.b.hook("db.write.enter"); err != nil {
 		return err
 	}
